@@ -97,12 +97,15 @@ def run(check, repo, tier):
     empty = P.resolve_name("gscrib.printrun.device", "READ_EMPTY")
     n_scripts = 0
     n_paths = 0
-    all_scripts = scripts(tier)
-    for script in all_scripts:
+    all_scripts = [(sc, None) for sc in scripts(tier)]
+    # a write that fails between two reads marks the connection as lost (Device._write_socket): what was received before
+    # is still delivered -- the same scripts with the flag dropped after the first returned line
+    all_scripts += [(sc, 1) for sc in ([("chunk", "a|b|c")], [("chunk", "a|b")], [("chunk", "||")], [("chunk", "a|b|c"), ("chunk", "a")])]
+    for script, drop_after in all_scripts:
         concrete = []
         for i, (kind, nm) in enumerate(script):
             concrete.append((kind, shapes(i)[nm] if kind == "chunk" else None))
-        label = " , ".join(nm if k == "chunk" else "<no data>" for k, nm in script)
+        label = " , ".join(nm if k == "chunk" else "<no data>" for k, nm in script) + (f" , connection flag lost after read {drop_after}" if drop_after else "")
 
         def entry(I_, _):
             state.update(script=list(concrete), received=(), again=0, eof_reads=0)
@@ -123,6 +126,8 @@ def run(check, repo, tier):
                 lines.append(r)
                 if isinstance(r, Const) and r.v is None:
                     break
+                if drop_after is not None and _k + 1 == drop_after:
+                    I_.heap[W.ref("dev").addr].fields["_is_connected"] = FALSE
             buf = I_.heap[I_.heap[W.ref("dev").addr].fields["_read_buffer"].addr]
             return Tup((Tup(tuple(lines)), Tup(tuple(state["received"])), Const(len(buf.items) if buf.items is not None else -1)))
         n_scripts += 1
